@@ -278,6 +278,8 @@ def many_items(n, seed, distinct):
             ver = "2" if not v.startswith("CVSS") else ("3" if v.startswith("CVSS:3") else "4")
         if i % 17 == 0:
             v = v[:-1]                      # now and then a rejected string
+        if not distinct and i % 23 == 0:
+            v = ("", "/", "CVSS:3.1/", "AV:N/", "CVSS:4.0/AV:N", "x")[(i // 23) % 6]      # ... and the simplest rejected strings, again and again
         out.append(["ctor", ver, v])
     return out
 
@@ -303,6 +305,19 @@ def check_many(inp):
         for it, a, b in zip(FIXED_PROBE, want, got):
             if a != b:
                 fails.append(failure(a, b, note="probe item %s evaluated %s %d constructions vs alone in a fresh process" % (json.dumps(it)[:120], label, n)))
+                break
+    if not distinct:
+        # the same call made again must answer the same (for a rejection: its own, new exception)
+        first = {}
+        for i, it in enumerate(bulk):
+            key = json.dumps(it)
+            if key not in first:
+                first[key] = res[k + i]
+            elif res[k + i] != first[key]:
+                a, b = first[key], res[k + i]
+                diff = sorted(x for x in set(a) | set(b) if a.get(x) != b.get(x))
+                fails.append(failure(dict((x, a.get(x)) for x in diff[:3]), dict((x, b.get(x)) for x in diff[:3]),
+                                     note="%s: call number %d of the history answers differently from the first call with these arguments" % (key[:120], i + 1)))
                 break
     idx = sorted(set(list(range(0, n, 40)) + list(range(max(0, n - 100), n))))
     for i in idx:
